@@ -56,7 +56,13 @@ class PEval:
         self.head = None   # value of the next unread source byte (head-byte abstraction of Source::peek/read)
         for v in facts.vars:
             if v.get('ints') is not None and v['_unit'] == unit_fn['_unit']:
-                self.static_tables[v['id']] = v['ints']
+                tab = list(v['ints'])
+                # trailing elements without an explicit initializer are value-initialised (array filler)
+                import re as _re
+                m = _re.search(r'\[(\d+)\]$', v['_types'][v['t'] - 1]) if v.get('t') else None
+                if m and int(m.group(1)) > len(tab):
+                    tab += [0] * (int(m.group(1)) - len(tab))
+                self.static_tables[v['id']] = tab
 
     # ---- expressions ----------------------------------------------------------
     def tn(self, e):
@@ -92,7 +98,12 @@ class PEval:
             return env.get(('m', e.get('n')), UNK)
         if k == 'UnaryOperator':
             op = e.get('op')
-            if op in ('++', '--', '&', '*'): return UNK
+            if op == '*':
+                t = A.strip(e.get('sub'), casts=True)
+                if t is not None and t.get('k') in ('MemberExpr', 'DeclRefExpr'):
+                    return env.get(('deref', t.get('n')), UNK)
+                return UNK
+            if op in ('++', '--', '&'): return UNK
             v = self.ev(e.get('sub'), env, depth)
             if v is UNK: return UNK
             if op == '!': return 0 if v else 1
@@ -216,6 +227,7 @@ class PEval:
             l = A.strip(e.get('lhs'))
             name = A.ref_name(l)
             val = self.ev(e.get('rhs'), env) if e.get('op') == '=' else UNK
+            self._kill_deref(env, name)
             if l is not None and l.get('k') == 'DeclRefExpr':
                 if l.get('id') in self.sticky: pass
                 elif e.get('op') == '=' and val is not UNK: env[l.get('id')] = wrap(val, self.tn(l))
@@ -231,6 +243,7 @@ class PEval:
             return
         if k == 'UnaryOperator' and e.get('op') in ('++', '--'):
             l = A.strip(e.get('sub'))
+            self._kill_deref(env, A.ref_name(l))
             if l is not None and l.get('k') == 'DeclRefExpr':
                 self._kill(env, l.get('id'))
             elif l is not None and l.get('k') == 'MemberExpr':
@@ -264,11 +277,16 @@ class PEval:
                 return
             self.sticky_once = None
             if k == 'CXXMemberCallExpr': self._source_call(e, env)
+            if k == 'CXXMemberCallExpr' and not e.get('cconst'):
+                ob = A.strip(e.get('obj'))
+                if ob is not None and ob.get('k') == 'CXXThisExpr':
+                    for kk in [kk for kk in env if isinstance(kk, tuple) and kk[0] in ('deref', 'm')]: env.pop(kk, None)
             # out-parameters by address/reference of locals become unknown
             for a in e.get('args') or []:
                 s = A.strip(a, casts=True)
                 if s is not None and s.get('k') == 'UnaryOperator' and s.get('op') == '&':
                     t = A.strip(s.get('sub'))
+                    if t is not None: self._kill_deref(env, A.ref_name(t))
                     if t is not None and t.get('k') == 'DeclRefExpr' and t.get('id') != self.sticky_once: self._kill(env, t.get('id'))
                 elif s is not None and s.get('k') == 'DeclRefExpr' and s.get('lv') and s.get('dk') == 'Var':
                     # passed by (possibly non-const) reference: only kill if the parameter type is a non-const reference
@@ -358,10 +376,12 @@ class PEval:
             k = x.get('k')
             if k in ('BinaryOperator', 'CompoundAssignOperator') and x.get('op', '').endswith('=') and x.get('op') not in ('==', '!=', '<=', '>='):
                 l = A.strip(x.get('lhs'))
+                self._kill_deref(env, A.ref_name(l))
                 if l is not None and l.get('k') == 'DeclRefExpr': self._kill(env, l.get('id'))
                 if l is not None and l.get('k') == 'MemberExpr': env.pop(('m', l.get('n')), None)
             if k == 'UnaryOperator' and x.get('op') in ('++', '--'):
                 l = A.strip(x.get('sub'))
+                self._kill_deref(env, A.ref_name(l))
                 if l is not None and l.get('k') == 'DeclRefExpr': self._kill(env, l.get('id'))
                 if l is not None and l.get('k') == 'MemberExpr': env.pop(('m', l.get('n')), None)
             if k in A.CALLS:
@@ -439,12 +459,27 @@ class PEval:
             if k == 'ForStmt' and s.get('init') is not None: self.exec_stmt(s['init'], env, guards, depth)
             c0 = self.ev(s.get('cond'), env) if k in ('WhileStmt', 'ForStmt') and s.get('cond') is not None else UNK
             if c0 is not UNK and not c0: return {'next'}
+            if (k == 'WhileStmt' and c0 is not UNK and c0) or (k == 'ForStmt' and s.get('cond') is None):
+                # loop with a constant-true condition: decide the first iteration concretely
+                e1 = dict(env); mark = len(self.effects)
+                r = self.exec_stmt(s.get('body'), e1, guards, depth)
+                core = r - {'return', 'throw', 'goto'}
+                if core <= {'break'}:
+                    env.clear(); env.update(e1)
+                    out = set(r) - {'break'}
+                    if 'break' in r: out.add('next')
+                    return out
+                if core <= {'next', 'continue'}:
+                    self.emit('loop', 'again', (), guards, s.get('l', 0), depth=depth)
+                    self.kill_assigned(s, env)
+                    return (set(r) - {'next', 'continue'}) | {'goto'}
+                del self.effects[mark:]
+            e1 = dict(env)     # the first iteration runs in the entry environment
             self.kill_assigned(s, env)
             if k == 'CXXForRangeStmt': self.expr_effects(s.get('range'), env, guards, depth)
             if s.get('cond') is not None: self.expr_effects(s.get('cond'), env, guards, depth)
             once = (k == 'DoStmt' and self.ev(s.get('cond'), env) == 0)
             g = guards if once else guards + ('loop@%d' % s.get('l', 0),)
-            e1 = dict(env)
             r = self.exec_stmt(s.get('body'), e1, g, depth)
             if k == 'ForStmt' and s.get('inc') is not None: self.expr_effects(s['inc'], e1, g, depth)
             self.kill_assigned(s, env)
@@ -521,6 +556,10 @@ class PEval:
     def _kill(self, env, key):
         if key in self.sticky: return
         env.pop(key, None)
+
+    @staticmethod
+    def _kill_deref(env, name):
+        env.pop(('deref', name), None)
 
     def decl(self, d, env, guards, depth):
         init = d.get('init')
